@@ -27,6 +27,7 @@ type PeerState struct {
 	Silent   bool
 	NoToken  bool
 	IntToken bool
+	EmptyTok bool // answers with a zero-length token
 	ErrReply bool
 	Values   map[[20]byte][]string // compact peers to return for an infohash
 	Extra    func(method string, r benc.Dict) benc.Dict
@@ -134,6 +135,10 @@ func honestHandle(p *core.Peer, from *core.SimConn, q benc.Dict, raw []byte) [][
 		}
 		if st.IntToken {
 			r = r.Set("token", int64(4242))
+			return
+		}
+		if st.EmptyTok {
+			r = r.Set("token", "")
 			return
 		}
 		st.TokSeq++
